@@ -55,6 +55,55 @@ V_HARMLESS = [
 ]
 
 
+A_BREAKING = [
+    ("AUTH window 600 -> 6000 (old side)", "if since >= 600:", "if since >= 6000:", {"tie_check_auth_event"}),
+    ("AUTH window >= -> >", "if since >= 600:", "if since > 600:", {"tie_check_auth_event"}),
+    ("AUTH future side <= -> <", "elif since <= -600:", "elif since < -600:", {"tie_check_auth_event"}),
+    ("AUTH kind 22242 -> 22243", "if auth_event.kind != 22242:", "if auth_event.kind != 22243:", {"tie_check_auth_event"}),
+    ("required tags: and -> or", "if not (found_relay and found_challenge):", "if not (found_relay or found_challenge):", {"tie_check_auth_event"}),
+    ("challenge test inverted", "if tag[1] != challenge:", "if tag[1] == challenge:", {"tie_auth_loop"}),
+    ("relay test inverted", "if tag[1] not in self.valid_urls:", "if tag[1] in self.valid_urls:", {"tie_auth_loop"}),
+    ("relay tag also counts as the challenge", "                found_relay = True", "                found_relay = found_challenge = True", {"tie_auth_loop"}),
+    ("signature check dropped to a no-op", "if not auth_event.verify():", "if not auth_event.verify() and False:", {"tie_check_auth_event", "checkAuthEvent"}),
+]
+A_HARMLESS = [
+    ("age inlined", "        if since >= 600:", "        if (time() - auth_event.created_at) >= 600:"),
+    ("elif split into a second if", "        elif since <= -600:", "        if since <= -600:"),
+    ("final test by De Morgan", "if not (found_relay and found_challenge):", "if not found_relay or not found_challenge:"),
+    ("challenge tag tested first", '            if tag[0] == "relay":\n                if tag[1] not in self.valid_urls:\n                    raise AuthenticationError(f"invalid: Wrong domain: {tag[1]}")\n                found_relay = True\n            elif tag[0] == "challenge":\n                if tag[1] != challenge:\n                    raise AuthenticationError("invalid: Wrong challenge")\n                found_challenge = True',
+     '            if tag[0] == "challenge":\n                if tag[1] != challenge:\n                    raise AuthenticationError("invalid: Wrong challenge")\n                found_challenge = True\n            elif tag[0] == "relay":\n                if tag[1] not in self.valid_urls:\n                    raise AuthenticationError(f"invalid: Wrong domain: {tag[1]}")\n                found_relay = True'),
+]
+
+
+def auth_part(lean):
+    from lib import translate_validators
+    src = open("/repo/nostr_relay/auth.py").read()
+    bad = 0
+    for kind, muts in (("breaking", A_BREAKING), ("harmless", A_HARMLESS)):
+        for m in muts:
+            name, old, new = m[0], m[1], m[2]
+            if src.count(old) != 1:
+                print("SKIP   %-45s (pattern occurs %d times in the current source)" % (name, src.count(old)))
+                continue
+            d = tempfile.mkdtemp(prefix="tiemut-")
+            try:
+                os.makedirs(os.path.join(d, "nostr_relay"))
+                open(os.path.join(d, "nostr_relay", "auth.py"), "w").write(src.replace(old, new))
+                r = translate_validators.run_auth(d, lean)
+            finally:
+                shutil.rmtree(d, ignore_errors=True)
+            failed = set(r["failed_names"])
+            if kind == "breaking":
+                ok = bool(failed & m[3]) or (bool(r["unavailable"]) and "no-op" in name)
+                print("%s %-45s broke %s (expected %s)%s" % ("ok    " if ok else "MISSED", name, sorted(failed), sorted(m[3]),
+                                                              "" if not r["unavailable"] else " unavailable=%r" % r["unavailable"]))
+            else:
+                ok = r["status"] == "checked"
+                print("%s %-45s status %s %s" % ("ok    " if ok else "ALARM ", name, r["status"], sorted(failed) or r["unavailable"] or ""))
+            bad += not ok
+    return bad
+
+
 def validators_part(lean):
     from lib import translate_validators
     src = open("/repo/nostr_relay/validators.py").read()
@@ -87,7 +136,7 @@ def validators_part(lean):
 def main():
     lean = os.environ.get("VERIF_LEAN") or os.path.join(HERE, "lean")
     src = open("/repo/nostr_relay/storage/kv.py").read()
-    bad = validators_part(lean)
+    bad = validators_part(lean) + auth_part(lean)
     for kind, muts in (("breaking", BREAKING), ("harmless", HARMLESS)):
         for m in muts:
             name, old, new = m[0], m[1], m[2]
